@@ -1034,3 +1034,107 @@ def require_readable(prog: Program, *funcs: FuncInfo, closures: bool = True) -> 
         hidden = unread_helpers(prog, f)
         if hidden:
             raise AnalysisError(f"{f.loc(f.node)}: {f.qualname.split(':')[1]} delegates to the new helper(s) {hidden[:4]}, which could not be read in place; the rule cannot be decided")
+
+
+# ---------------------------------------------------------------------------------------------- closures that capture an iteration variable late
+def late_binding_closures(f: FuncInfo) -> list[tuple[ast.AST, str, ast.AST]]:
+    """(closure, variable, loop) for every lambda / nested function that is created once per iteration of a loop or comprehension of `f`, reads the
+    iteration variable (or a name assigned in the loop body) as a *free* variable and outlives the iteration (it is an element of the comprehension's
+    result, appended, stored, returned or yielded).  Python closures look the name up when they run: all of them then see the last iteration's value."""
+    out: list[tuple[ast.AST, str, ast.AST]] = []
+
+    def target_names(t: ast.AST) -> set[str]:
+        return {x.id for x in ast.walk(t) if isinstance(x, ast.Name)}
+
+    def free_reads(c: ast.AST) -> set[str]:
+        if isinstance(c, ast.Lambda):
+            params = {a.arg for a in [*c.args.posonlyargs, *c.args.args, *c.args.kwonlyargs]} | ({c.args.vararg.arg} if c.args.vararg else set()) | ({c.args.kwarg.arg} if c.args.kwarg else set())
+            body: list[ast.AST] = [c.body]
+        else:
+            params = {a.arg for a in [*c.args.posonlyargs, *c.args.args, *c.args.kwonlyargs]} | ({c.args.vararg.arg} if c.args.vararg else set()) | ({c.args.kwarg.arg} if c.args.kwarg else set())
+            body = list(c.body)
+        local = set(params)
+        for b in body:
+            for x in ast.walk(b):
+                if isinstance(x, ast.Name) and isinstance(x.ctx, ast.Store):
+                    local.add(x.id)
+                if isinstance(x, ast.comprehension):
+                    local |= target_names(x.target)
+        return {x.id for b in body for x in ast.walk(b) if isinstance(x, ast.Name) and isinstance(x.ctx, ast.Load)} - local
+
+    def escapes(c: ast.AST, loop: ast.AST) -> bool:
+        par = getattr(c, "_parent", None)
+        if isinstance(loop, (ast.ListComp, ast.SetComp, ast.GeneratorExp, ast.DictComp)):
+            # an element (or part of a display that is the element) of the result
+            cur, up = c, par
+            while up is not None and up is not loop:
+                if isinstance(up, ast.Call) and cur is not up.func and not (isinstance(up.func, ast.Attribute) and up.func.attr in ("append", "add", "insert", "setdefault")):
+                    return False        # handed to a call evaluated during the iteration
+                cur, up = up, getattr(up, "_parent", None)
+            return up is loop
+        if isinstance(c, (ast.FunctionDef, ast.AsyncFunctionDef)):
+            # a nested def in a loop body: escapes if its name is appended / stored / returned / yielded
+            nm = c.name
+            for x in ast.walk(loop):
+                if isinstance(x, ast.Name) and x.id == nm and isinstance(x.ctx, ast.Load):
+                    up = getattr(x, "_parent", None)
+                    if isinstance(up, ast.Call) and up.func is x:
+                        continue
+                    return True
+            return False
+        cur, up = c, par
+        while up is not None and not isinstance(up, ast.stmt):
+            if isinstance(up, ast.Call) and cur is not up.func:
+                return isinstance(up.func, ast.Attribute) and up.func.attr in ("append", "add", "insert", "setdefault", "extend")
+            cur, up = up, getattr(up, "_parent", None)
+        if isinstance(up, (ast.Return, ast.Expr)) and (isinstance(up, ast.Return) or isinstance(getattr(up, "value", None), (ast.Yield, ast.YieldFrom))):
+            return True
+        if isinstance(up, (ast.Assign, ast.AnnAssign)):
+            tg = up.targets[0] if isinstance(up, ast.Assign) else up.target
+            if isinstance(tg, (ast.Subscript, ast.Attribute)):
+                return True
+            # bound to a plain local: escapes if that local does (appended / stored / returned later in the loop)
+            if isinstance(tg, ast.Name):
+                for x in ast.walk(loop):
+                    if isinstance(x, ast.Name) and x.id == tg.id and isinstance(x.ctx, ast.Load):
+                        u2 = getattr(x, "_parent", None)
+                        if isinstance(u2, ast.Call) and u2.func is x:
+                            continue
+                        return True
+        return False
+
+    for loop in ast.walk(f.node):
+        if isinstance(loop, (ast.For, ast.AsyncFor)):
+            itervars = target_names(loop.target)
+            body_nodes = [x for b in loop.body for x in ast.walk(b)]
+            itervars |= {x.id for x in body_nodes if isinstance(x, ast.Name) and isinstance(x.ctx, ast.Store)}
+        elif isinstance(loop, (ast.ListComp, ast.SetComp, ast.GeneratorExp, ast.DictComp)):
+            itervars = set()
+            for gen in loop.generators:
+                itervars |= target_names(gen.target)
+            elts = [loop.key, loop.value] if isinstance(loop, ast.DictComp) else [loop.elt]
+            body_nodes = [x for e in elts for x in ast.walk(e)]
+        elif isinstance(loop, ast.While):
+            body_nodes = [x for b in loop.body for x in ast.walk(b)]
+            itervars = {x.id for x in body_nodes if isinstance(x, ast.Name) and isinstance(x.ctx, ast.Store)}
+        else:
+            continue
+        for c in body_nodes:
+            if not isinstance(c, (ast.Lambda, ast.FunctionDef, ast.AsyncFunctionDef)):
+                continue
+            # innermost enclosing loop only
+            cur = getattr(c, "_parent", None)
+            inner = None
+            while cur is not None and cur is not f.node:
+                if isinstance(cur, (ast.For, ast.AsyncFor, ast.While, ast.ListComp, ast.SetComp, ast.GeneratorExp, ast.DictComp)):
+                    inner = cur
+                    break
+                if isinstance(cur, (ast.Lambda, ast.FunctionDef, ast.AsyncFunctionDef)):
+                    break
+                cur = getattr(cur, "_parent", None)
+            if inner is not loop:
+                continue
+            captured = sorted(free_reads(c) & itervars)
+            if captured and escapes(c, loop):
+                out.append((c, captured[0], loop))
+    return out
